@@ -1,4 +1,4 @@
-CONSTANTS Alphabet = {10, 13, 64, 43} MaxLen = 7 Caps = {3,4,6,9} GrowLimit = 16 MaxOps = 3
+CONSTANTS Alphabet = {10, 13, 64, 43} MaxLen = 7 Caps = {3,4,6,9} GrowLimit = 16 MaxOps = 3 MaxFail = 2
 SPECIFICATION Spec
 INVARIANT Refines
 CHECK_DEADLOCK FALSE
